@@ -140,8 +140,9 @@ def _shl_or(A,bor,v,k,u):
   return A.imp(A.and_(k>=0, v>=0, 0<=u, u<A.pow2(k)), A.bor2(A.mulp(v,k),u, A.mulp(v,k)+u))
 def _cat_range(A,v,a,k,u,t):
   return A.imp(A.and_(a>=0, k>=0, A.eq(t,a+k), 0<=v, v<A.pow2(a), 0<=u, u<A.pow2(k)), A.and_(0<=A.mulp(v,k)+u, A.mulp(v,k)+u<A.pow2(t)))
+def _pw_num(A,k,c): return A.imp(A.and_(A.eq(k,c),c>=0), A.eq(A.pow2(k),2**max(c,0)))
 LEMMAS = {
- 'comm':(2,_comm),
+ 'comm':(2,_comm), 'pw-num':(2,_pw_num),
  'pw-pos':(1,_pw_pos), 'pw-mono':(2,_pw_mono), 'pw-succ':(2,_pw_succ), 'pw-add':(3,_pw_add),
  'and-mask':(3,_and_mask), 'and-mask-l':(3,_and_mask_l), 'and-range':(2,_and_range), 'and-clear':(5,_and_clear),
  'and-clearbit':(3,_and_clearbit), 'and-one':(2,_and_one),
@@ -167,6 +168,7 @@ def crosscheck_lemmas(seed=0, nrand=3000):
     params=list(inspect.signature(f).parameters)[1:]
     # exhaustive small
     doms=[small if p in('x','y','v','m','u') else list(range(-1,6)) for p in params]
+    if name=='pw-num': doms=[list(range(-1,12)),list(range(-1,12))]
     tot=1
     for d in doms: tot*=len(d)
     it = itertools.product(*doms) if tot<=60000 else (tuple(rng.choice(d) for d in doms) for _ in range(60000))
@@ -231,7 +233,14 @@ class Theory:
     return r
   # & | ^ are commutative (schema 'comm', cross-checked): operands are put in a canonical order
   def _ord(s,x,y): return (x,y) if x.get_id()<=y.get_id() else (y,x)
-  def band(s,x,y): x,y=s._ord(x,y); s._add(s.ands,(x,y)); return s.A.band(x,y)
+  def band(s,x,y):
+    # x & (2^k-1) with a numeral mask is x mod 2^k (schema and-mask with a concrete k): stays linear
+    for a,b in ((x,y),(y,x)):
+      b=z3.simplify(b)
+      if z3.is_int_value(b):
+        c=b.as_long()
+        if c>=0 and (c&(c+1))==0: return a % z3.IntVal(c+1) if c>0 else z3.IntVal(0)
+    x,y=s._ord(x,y); s._add(s.ands,(x,y)); return s.A.band(x,y)
   def bor(s,x,y):  x,y=s._ord(x,y); s._add(s.ors,(x,y));  return s.A.bor(x,y)
   def bxor(s,x,y): x,y=s._ord(x,y); s._add(s.xors,(x,y)); return s.A.bxor(x,y)
   def shl(s,x,k):
@@ -261,10 +270,14 @@ class Theory:
   def _cbor(s,a,b):
     a,b=s._ord(a,b); return s.A.bor(a,b)
 
-  def instances(s, level=2):
-    """ground instances of the lemma schemas for the terms of this VC.  level 1: the cheap idiom-level core; level 2: everything."""
+  def instances(s, level=2, numerals=()):
+    """ground instances of the lemma schemas for the terms of this VC.  level 1: the cheap idiom-level core; level 2: everything.
+    numerals: integer constants of the VC; for an exponent term k they give  k == c  =>  pow2(k) == 2^c  (schema pw-num)."""
     A=s.A; out=[]; heavy=[]
     K=[k[0] for k in s.K]
+    for k in K:
+      for c in numerals:
+        if 0<=c<=1100: out.append(z3.Implies(k==c, s.A.f_pow2(k)==z3.IntVal(2**c)))
     Z=z3.IntVal(0); ONE=z3.IntVal(1)
     for k in K: out.append(_pw_pos(A,k))
     for j,k in itertools.permutations(K,2):
@@ -345,4 +358,4 @@ class RefuteTheory(Theory):
   def shl(s,x,k): return x*s.pow2(k)
   def divp(s,x,k): return x / s.pow2(k)
   def modp(s,x,k): return x % s.pow2(k)
-  def instances(s,limit=0): return list(s.side)
+  def instances(s,level=2,numerals=()): return list(s.side)
